@@ -211,6 +211,23 @@ def assert_constraints(weights,
   return asserts
 
 
+
+def _verify_no_circular_dominances(dim_pairs, dominance_type):
+  """Raises ValueError if the (dominant, weak) pairs contain a cycle."""
+  # The projection orders the dimensions topologically, which is only possible
+  # for an acyclic set of pairs. Repeatedly drop the pairs whose dominant
+  # dimension is not dominated in any remaining pair.
+  remaining = set(dim_pairs)
+  while remaining:
+    dominated = set(weak for (_, weak) in remaining)
+    resolved = set((dominant, weak) for (dominant, weak) in remaining
+                   if dominant not in dominated)
+    if not resolved:
+      raise ValueError("Circular %s dominance constraints: %s" %
+                       (dominance_type, sorted(dim_pairs)))
+    remaining -= resolved
+
+
 def verify_hyperparameters(num_input_dims=None,
                            units=None,
                            input_shape=None,
@@ -348,6 +365,7 @@ def verify_hyperparameters(num_input_dims=None,
                          "the same pair of features conflicting. Features: %d, "
                          "%d" % (dominant_dim, weak_dim))
       dim_pairs.add((dominant_dim, weak_dim))
+    _verify_no_circular_dominances(dim_pairs, "monotonic")
 
   if range_dominances is not None:
     assert monotonicities is not None
@@ -392,6 +410,7 @@ def verify_hyperparameters(num_input_dims=None,
                          "same pair of features conflicting. Features: %d, %d" %
                          (dominant_dim, weak_dim))
       dim_pairs.add((dominant_dim, weak_dim))
+    _verify_no_circular_dominances(dim_pairs, "range")
 
   if range_dominances is not None and monotonic_dominances is not None:
     monotonic_dominance_dims = set()
